@@ -286,7 +286,9 @@ let run_case (env : mdesc array) (envl : mdesc list) (line : string) : string op
          (* model only: the normal form (Impl/WNorm.v) of a hand-built message, and whether it is canonical *)
          let m = parse_msg t in
          let n = WNorm.wnorm_msg envl m in
-         Buffer.add_string b (Printf.sprintf "WN %d U" (if Canon.canon_msg envl n then 1 else 0));
+         (* WN <canon (wnorm m)> <hypotheses of C01_roundtrip_of_every_checked_well_typed_message: wf, typed, check accepts> *)
+         let hyp = WF.wf_msg envl m && Typed.typed_msg envl m && (match Check.check_msg envl m with Ok true -> true | _ -> false) in
+         Buffer.add_string b (Printf.sprintf "WN %d%s U" (if Canon.canon_msg envl n then 1 else 0) (if hyp then "h" else ""));
          print_msg env b n
        | "UNORM" ->
          (* model only: is the normalisation (Impl/Norm.v) of what unpack returns in the normal form of the
